@@ -6,7 +6,7 @@
    to, and `info` hides it from what it encloses) reduces these runs to the ones GrammarStmt.v knows. *)
 From Coq Require Import List Lia Arith Bool.
 From Spl Require Import Spec.Grammar Model.Parser Proofs.GrammarBase Proofs.GrammarExpr Proofs.GrammarStmt.
-From Spl Require Import Proofs.SynFaults.
+From Spl Require Import Proofs.SynFaults Proofs.SynFaultsEP Proofs.SynFaultsArgs.
 Import ListNotations.
 Local Open Scope nat_scope.
 
@@ -20,38 +20,14 @@ Ltac fteq :=
 
 Ltac side := first [lia | assumption].
 
-(* the token behind the gap: cannot continue an expression, and is not `;` *)
-Definition gapfol (kd : kind) : bool := fol_cmp kd && negb (is_k Semic kd).
+(* the token behind a missing `;`: cannot continue an expression, and is not `;` *)
+Notation gapfol := (gapfolE Semic).
 
 (* what can stand behind a statement inside a body: a statement, `}`, `else` *)
 Definition stopper (kd : kind) : bool := stmt_first kd || is_k RCurly kd || is_k KElse kd.
 
 Lemma stopper_cmp kd : stopper kd = true -> fol_cmp kd = true.
 Proof. destruct kd; try discriminate; reflexivity. Qed.
-
-Lemma fol_next P l : fol P l -> exists kd, next_sig l = Some kd /\ sig kd = true /\ P kd = true.
-Proof.
-  intros (c & kd & rest & -> & Hs & HP). exists kd. split; [|auto].
-  induction c as [|x c IH]; cbn [cm map app next_sig]; [|exact IH]. destruct kd; try reflexivity; discriminate.
-Qed.
-
-Lemma gap_open_fol l : fol stopper l -> gap_open Semic l = true -> fol gapfol l.
-Proof.
-  intros Hf Hg. destruct (fol_next _ _ Hf) as (kd & Hn & _ & _). destruct Hf as (c & kd' & rest & -> & Hs & HP).
-  assert (kd' = kd).
-  { clear - Hn Hs. induction c as [|x c IH]; cbn [cm map app next_sig] in Hn; [|exact (IH Hn)]. destruct kd'; try discriminate; congruence. }
-  subst kd'. exists c, kd, rest. split; [reflexivity|]. split; [exact Hs|].
-  unfold gapfol. rewrite (stopper_cmp _ HP). unfold gap_open in Hg. rewrite Hn in Hg. destruct kd; try reflexivity; discriminate.
-Qed.
-
-Lemma gap_open_fol' l : fol fol_cmp l -> gap_open Semic l = true -> fol gapfol l.
-Proof.
-  intros Hf Hg. destruct (fol_next _ _ Hf) as (kd & Hn & _ & _). destruct Hf as (c & kd' & rest & -> & Hs & HP).
-  assert (kd' = kd).
-  { clear - Hn Hs. induction c as [|x c IH]; cbn [cm map app next_sig] in Hn; [|exact (IH Hn)]. destruct kd'; try discriminate; congruence. }
-  subst kd'. exists c, kd, rest. split; [reflexivity|]. split; [exact Hs|].
-  unfold gapfol. rewrite HP. unfold gap_open in Hg. rewrite Hn in Hg. destruct kd; try reflexivity; discriminate.
-Qed.
 
 Lemma stmts_stopper b rest : fol (is_k RCurly) rest -> fol stopper (fl_stmts b ++ rest).
 Proof.
@@ -70,30 +46,78 @@ Proof.
   apply fol_here; [exact Hs | apply stmt_first_stopper, Hk].
 Qed.
 
-(* behind the gap stands a stopper, whatever the fault's position *)
-Lemma after_stopper :
-  (forall s rest, fol stopper rest -> fol stopper (after_stmt s rest)) /\
-  (forall b rest, fol (is_k RCurly) rest -> fol stopper (after_stmts b rest)).
+(* something stands behind the gap, whatever the fault's position *)
+Definition anyk (kd : kind) : bool := true.
+
+Lemma fol_any P l : fol P l -> fol anyk l.
+Proof. apply fol_weaken. reflexivity. Qed.
+
+Lemma after_expr_any :
+  (forall v rest, fol anyk rest -> fol anyk (after_var v rest)) /\ (forall f rest, fol anyk rest -> fol anyk (after_fac f rest)) /\
+  (forall m rest, fol anyk rest -> fol anyk (after_mul m rest)) /\ (forall a rest, fol anyk rest -> fol anyk (after_add a rest)) /\
+  (forall e rest, fol anyk rest -> fol anyk (after_cmp e rest)).
 Proof.
-  apply fstmt_mutind; cbn [after_stmt after_stmts]; intros; auto; try apply stmt_stopper.
-  - apply fol_here; reflexivity.
-  - apply H. apply fol_here; reflexivity.
-  - apply H. apply fol_here; reflexivity.
-  - apply H. apply stmts_stopper. assumption.
+  apply fexpr_mutind; cbn [after_var after_fac after_mul after_add after_cmp]; intros; auto;
+    match goal with H : forall rest, fol anyk rest -> _ |- _ => apply H end; apply fol_here; try reflexivity;
+    match goal with op : mulop |- _ => destruct op | op : addop |- _ => destruct op | op : cmpop |- _ => destruct op end; reflexivity.
 Qed.
 
-(* the condition on the tokens behind the gap: behind a missing `;` stands a token that is not `;` (and cannot
-   continue an expression: it is a stopper); nothing is asked behind the other closing tokens *)
-Definition gapc (k : kind) (l : list kind) : Prop := match k with Semic => fol gapfol l | _ => True end.
-
-Lemma gapc_open k l : fol stopper l -> gap_open k l = true -> gapc k l.
+Lemma fol_tail_any l rest : fol anyk rest -> fol anyk (fl_tail fl_cmp l ++ rest).
 Proof.
-  intros Hf Hg. destruct k; try exact I. cbn [gapc]. apply gap_open_fol; assumption.
+  intros H. destruct l as [|[c a] l]; cbn [fl_tail flat_map fst snd app]; [exact H|].
+  rewrite <- !app_assoc. cbn [app]. now apply fol_here.
+Qed.
+
+Lemma after_any :
+  (forall s rest, fol anyk rest -> fol anyk (after_stmt s rest)) /\
+  (forall b rest, fol anyk rest -> fol anyk (after_stmts b rest)).
+Proof.
+  destruct after_expr_any as (Av & _ & _ & _ & Ac).
+  apply fstmt_mutind; cbn [after_stmt after_stmts]; intros; auto;
+    try (match goal with a : fargs |- _ => destruct a as [e0 l0|e0 pre0 c0 e1 post0]; cbn [after_args]; apply Ac; apply fol_tail_any; apply fol_here; reflexivity end);
+    try (apply (fol_any stopper), stmt_stopper);
+    try (apply Av; apply fol_here; reflexivity); try (apply Ac; apply fol_here; reflexivity);
+    try (apply fol_here; reflexivity);
+    try (match goal with H : forall rest, fol anyk rest -> _ |- _ => apply H end; try (apply fol_here; reflexivity)).
+  destruct r as [|s1 r1]; cbn [fl_stmts app]; [assumption|]. rewrite <- app_assoc. apply (fol_any stopper), stmt_stopper.
+Qed.
+
+(* the condition on the tokens behind the gap (from gap_open): not the missing token itself and nothing that continues an
+   expression; nothing is asked behind a missing `}` *)
+Definition gapc (k : kind) (l : list kind) : Prop := match k with Semic | RParen | RBracket => gapE k l | _ => True end.
+
+Lemma gapc_open k l : fol anyk l -> gap_open k l = true -> gapc k l.
+Proof.
+  intros Hf Hg. destruct k; try exact I; cbn [gapc]; apply gap_open_E; auto.
+Qed.
+
+Lemma gk_expr :
+  (forall v, gk_var v = RParen \/ gk_var v = RBracket) /\ (forall f, gk_fac f = RParen \/ gk_fac f = RBracket) /\
+  (forall m, gk_mul m = RParen \/ gk_mul m = RBracket) /\ (forall a, gk_add a = RParen \/ gk_add a = RBracket) /\
+  (forall e, gk_cmp e = RParen \/ gk_cmp e = RBracket).
+Proof. apply fexpr_mutind; cbn [gk_var gk_fac gk_mul gk_add gk_cmp]; intros; auto. Qed.
+
+Lemma gapc_E_var v l : gapc (gk_var v) l -> gapE (gk_var v) l.
+Proof. destruct (proj1 gk_expr v) as [-> | ->]; exact (fun H => H). Qed.
+Lemma gapc_E_cmp e l : gapc (gk_cmp e) l -> gapE (gk_cmp e) l.
+Proof. destruct (proj2 (proj2 (proj2 (proj2 gk_expr))) e) as [-> | ->]; exact (fun H => H). Qed.
+Lemma gapc_E_args a l : gapc (gk_args a) l -> gapE (gk_args a) l.
+Proof. destruct a; cbn [gk_args]; apply gapc_E_cmp. Qed.
+
+(* the name of a faulty variable is followed by `[` *)
+Lemma fvar_tl_next v : forall Z, exists c Z', fvar_tl v ++ Z = cm c ++ LBracket :: Z'.
+Proof.
+  induction v as [v c1 e|v IH c1 e c2|v c1 e c2]; intros Z; cbn [fvar_tl]; rewrite <- ?app_assoc; cbn [app].
+  - destruct (var_tl_next v c1 LBracket (fl_cmp e ++ Z) eq_refl) as (c & kd & Z' & E & _ & [-> | ->]); rewrite E; eauto.
+  - apply IH.
+  - destruct (var_tl_next v c1 LBracket ((ffl_cmp e ++ cm c2 ++ [RBracket]) ++ Z) eq_refl) as (c & kd & Z' & E & _ & [-> | ->]);
+      rewrite E; eauto.
 Qed.
 
 Lemma fstmt_head s : exists c kd tl, ffl_stmt s = cm c ++ kd :: tl /\ sig kd = true /\ stmt_first kd = true.
 Proof.
   destruct s as [v c1 e|c1 f c2 a c3|c1 f c2 a c4|c1 c2 e t|c1 c2 e t c4 s'|c1 c2 e b
+                |v c1 e c2|v c1 e c2|c1 c2 e c3 t|c1 c2 e c3 t c4 s'|c1 c2 e c3 b|c1 f c2 a c3 c4
                 |c1 c2 e c3 t|c1 c2 e c3 t c4 s'|c1 c2 e c3 t c4 s'|c1 c2 e c3 b|c1 b c2]; cbn [ffl_stmt].
   - rewrite fl_var_head, <- app_assoc. cbn [app]. now eexists _, (Ident _), _.
   - now eexists c1, (Ident f), _.
@@ -101,6 +125,12 @@ Proof.
   - now eexists c1, KIf, _.
   - now eexists c1, KIf, _.
   - now eexists c1, KWhile, _.
+  - rewrite ffl_var_head, <- app_assoc. cbn [app]. now eexists _, (Ident _), _.
+  - rewrite fl_var_head, <- app_assoc. cbn [app]. now eexists _, (Ident _), _.
+  - now eexists c1, KIf, _.
+  - now eexists c1, KIf, _.
+  - now eexists c1, KWhile, _.
+  - now eexists c1, (Ident f), _.
   - now eexists c1, KIf, _.
   - now eexists c1, KIf, _.
   - now eexists c1, KIf, _.
@@ -117,60 +147,6 @@ Proof.
     apply fol_here; [exact Hs|]. destruct kd; try discriminate; reflexivity.
 Qed.
 
-
-(* ---- comma-separated lists closed by something else than `)` (GrammarStmt.v, Section Sep, with the closing token as
-   a parameter): behind a missing `)` the list of arguments is followed by `;` ---- *)
-Section SepG.
-Variable toks : list token.
-Notation at_ := (at_ toks).
-Context {A B : Type} (fl : A -> list kind) (x : A -> B) (p : parser B) (N : nat) (stop : kind -> bool).
-Hypothesis stop_nc : forall kd, stop kd = true -> is_k Comma kd = false.
-Definition follows_g (kd : kind) : bool := is_k Comma kd || stop kd.
-Hypothesis elem_ok : forall a k rest, len (fl a) <= N -> at_ k (fl a ++ rest) -> fol follows_g rest ->
-  p (mk k k) = POk (mk (k + len (fl a)) k) (x a).
-
-Lemma fol_tail_g l rest : fol stop rest -> fol follows_g (fl_tail fl l ++ rest).
-Proof.
-  intros H. destruct l as [|[c a] l]; cbn [fl_tail flat_map fst snd app].
-  - revert H. apply fol_weaken. intros kd Hk. unfold follows_g. rewrite Hk. apply orb_true_r.
-  - rewrite <- !app_assoc. cbn [app]. now apply fol_here.
-Qed.
-
-Lemma tail_steps_g l : forall k r rest, r <= k -> len (fl_tail fl l) <= N -> at_ k (fl_tail fl l ++ rest) ->
-  fol stop rest ->
-  steps (tail_p toks p) (mk k r) (x_tail fl x (k - r) l) (mk (k + len (fl_tail fl l)) r).
-Proof.
-  induction l as [|[c a] l IH]; intros k r rest Hr HN H Hfol.
-  - cbn [fl_tail flat_map length x_tail]. rewrite Nat.add_0_r. constructor.
-  - rewrite tail_len in *. unfold fl_tail in H. cbn [flat_map fst snd] in H. flat_in H. fold (fl_tail fl l) in H.
-    destruct (p_tag_at toks (is_k Comma) k k _ _ _ H eq_refl) as (t & _ & E).
-    pose proof (at_cm_cons _ _ _ _ _ H) as H1.
-    pose proof (elem_ok a _ _ ltac:(lia) H1 (fol_tail_g l rest Hfol)) as E2.
-    cbn [x_tail]. eapply steps_cons with (s1 := mk (k + len c + 1 + len (fl a)) r).
-    + unfold tail_p. comb. rewrite E; ifs; norm. rewrite E2; norm. teq.
-    + cbn [pos]. lia.
-    + apply at_app in H1. specialize (IH (k + len c + 1 + len (fl a)) r rest ltac:(lia) ltac:(lia) H1 Hfol).
-      replace (k + len c + 1 + len (fl a) - r) with (k - r + len c + 1 + len (fl a)) in IH by lia.
-      replace (k + (len c + 1 + len (fl a) + len (fl_tail fl l))) with (k + len c + 1 + len (fl a) + len (fl_tail fl l)) by lia.
-      exact IH.
-Qed.
-
-Lemma list_ok_g a l k r rest fuel : r <= k -> len (fl_sep fl (Some (a, l))) <= N -> len l < fuel ->
-  at_ k (fl_sep fl (Some (a, l)) ++ rest) -> fol stop rest ->
-  p_list toks fuel p (mk k r) = POk (mk (k + len (fl_sep fl (Some (a, l)))) r) (x_sep fl x (k - r) (Some (a, l))).
-Proof.
-  intros Hr HN Hf H Hfol. cbn [fl_sep] in *. rewrite app_length in *. flat_in H.
-  rewrite p_list_eq. comb.
-  rewrite (elem_ok a k _ ltac:(lia) H (fol_tail_g l rest Hfol)). norm.
-  apply at_app in H.
-  pose proof (tail_steps_g l (k + len (fl a)) r rest ltac:(lia) ltac:(lia) H Hfol) as Hst.
-  destruct Hfol as (c & kd & rest' & -> & Hs & Hk). apply at_app in H.
-  assert (Ee : tail_p toks p (mk (k + len (fl a) + len (fl_tail fl l)) r) = PErr (mk (k + len (fl a) + len (fl_tail fl l)) r)).
-  { unfold tail_p. comb. rewrite (p_tag_no toks (is_k Comma) _ _ _ _ _ H Hs); [reflexivity|]. apply stop_nc, Hk. }
-  rewrite (many0_steps' _ _ _ _ _ fuel Hst Ee) by (now rewrite (proj2 (tail_count fl x l))). norm.
-  cbn [x_sep]. replace (k - r + len (fl a)) with (k + len (fl a) - r) by lia. teq.
-Qed.
-End SepG.
 
 Section FStmt.
 Variable toks : list token.
@@ -464,6 +440,158 @@ Proof.
   pose proof (fl_cmp_pos e). fteq.
 Qed.
 
+(* ---- a fault inside an expression of the statement ---- *)
+Lemma call_no_idx v Z k r fuel : at_ k (ffl_var v ++ Z) -> r <= k -> exists e, p_call toks fuel (mk k r) = PErr e.
+Proof.
+  intros H Hr. rewrite ffl_var_head in H. flat_in H. destruct (fvar_tl_next v Z) as (c & Z' & E). rewrite E in H.
+  unfold p_call. comb. rewrite (p_ident_at toks k r _ _ _ H Hr). norm. apply at_cm_cons in H.
+  rewrite (p_tag_no toks (is_k LParen) _ r _ _ _ H eq_refl eq_refl). eexists; reflexivity.
+Qed.
+
+Lemma fstmt_asgl v c1 e c2 : FStmtOK (FAsgL v c1 e c2).
+Proof.
+  intros k r rest fuel Hr Hf Hok H Hfol Hgap. cbn [after_stmt gk_stmt] in Hgap. apply gapc_E_var in Hgap.
+  assert (Hl : len (ffl_stmt (FAsgL v c1 e c2)) = len (ffl_var v) + len c1 + 1 + len (fl_cmp e) + len c2 + 1) by (flens'; lia).
+  destruct fuel as [|f]; [lia|]. rewrite p_stmt_S. comb.
+  pose proof H as H0. cbn [ffl_stmt] in H0. flat_in H0.
+  destruct (call_no_idx v _ k r f H0 Hr) as (e0 & Ec).
+  pose proof H0 as H1. rewrite ffl_var_head in H1. flat_in H1.
+  rewrite (p_tag_no toks (is_k Semic) k r _ _ _ H1 eq_refl eq_refl).
+  rewrite (p_tag_no toks (is_k KIf) k r _ _ _ H1 eq_refl eq_refl).
+  rewrite (p_tag_no toks (is_k KWhile) k r _ _ _ H1 eq_refl eq_refl).
+  rewrite (p_tag_no toks (is_k LCurly) k r _ _ _ H1 eq_refl eq_refl).
+  rewrite Ec. unfold p_assign, p_expr. comb.
+  rewrite (fvar_ok toks v k r _ f Hr ltac:(lia) H0 (fol_here nolb c1 Assign _ eq_refl eq_refl) Hgap). norm.
+  apply at_app in H0.
+  destruct (p_tag_at toks (is_k Assign) _ r _ _ _ H0 eq_refl) as (t1 & _ & E1). rewrite E1; ifs; norm.
+  apply at_cm_cons in H0.
+  rewrite (cmp_ok toks e _ _ _ f (le_n _) ltac:(lia) H0 (fol_here fol_cmp c2 Semic _ eq_refl eq_refl)). norm.
+  apply at_app in H0.
+  destruct (p_tag_at toks (is_k Semic) _ r _ _ _ H0 eq_refl) as (t2 & _ & E2). rewrite E2; ifs; norm.
+  rewrite Nat.sub_diag. cbn [fxg_stmt]. unfold mkinfo. rewrite Hl. fteq.
+Qed.
+
+Lemma fstmt_asgr v c1 e c2 : FStmtOK (FAsgR v c1 e c2).
+Proof.
+  intros k r rest fuel Hr Hf Hok H Hfol Hgap. cbn [after_stmt gk_stmt] in Hgap. apply gapc_E_cmp in Hgap.
+  assert (Hl : len (ffl_stmt (FAsgR v c1 e c2)) = len (fl_var v) + len c1 + 1 + len (ffl_cmp e) + len c2 + 1) by (flens'; lia).
+  destruct fuel as [|f]; [lia|]. rewrite p_stmt_S. comb.
+  pose proof H as H0. cbn [ffl_stmt] in H0. flat_in H0.
+  destruct (call_no_asg toks v c1 _ k r f H0 Hr) as (e0 & Ec).
+  pose proof H0 as H1. rewrite fl_var_head in H1. flat_in H1.
+  rewrite (p_tag_no toks (is_k Semic) k r _ _ _ H1 eq_refl eq_refl).
+  rewrite (p_tag_no toks (is_k KIf) k r _ _ _ H1 eq_refl eq_refl).
+  rewrite (p_tag_no toks (is_k KWhile) k r _ _ _ H1 eq_refl eq_refl).
+  rewrite (p_tag_no toks (is_k LCurly) k r _ _ _ H1 eq_refl eq_refl).
+  rewrite Ec. unfold p_assign, p_expr. comb.
+  rewrite (var_ok toks v k r _ f Hr ltac:(lia) H0 (fol_here nolb c1 Assign _ eq_refl eq_refl)). norm.
+  apply at_app in H0.
+  destruct (p_tag_at toks (is_k Assign) _ r _ _ _ H0 eq_refl) as (t1 & _ & E1). rewrite E1; ifs; norm.
+  apply at_cm_cons in H0.
+  rewrite (fcmp_ok toks e _ _ _ f (le_n _) ltac:(lia) H0 (fol_here fol_cmp c2 Semic _ eq_refl eq_refl) Hgap). norm.
+  apply at_app in H0.
+  destruct (p_tag_at toks (is_k Semic) _ r _ _ _ H0 eq_refl) as (t2 & _ & E2). rewrite E2; ifs; norm.
+  rewrite Nat.sub_diag. cbn [fxg_stmt]. unfold mkinfo. rewrite Hl. fteq.
+Qed.
+
+Lemma fstmt_ifc c1 c2 e c3 t : FStmtOK (FIfC c1 c2 e c3 t).
+Proof.
+  intros k r rest fuel Hr Hf Hok H Hfol Hgap. cbn [ffl_stmt] in H. flat_in H. cbn [orig_stmt else_ok open_if] in Hok, Hfol.
+  cbn [after_stmt gk_stmt] in Hgap. apply gapc_E_cmp in Hgap.
+  assert (Hl : len (ffl_stmt (FIfC c1 c2 e c3 t)) = len c1 + 1 + len c2 + 1 + len (ffl_cmp e) + len c3 + 1 + len (fl_stmt t)) by (flens'; lia).
+  pose proof (fun _ : open_if t = true => Hfol eq_refl) as Hft.
+  destruct fuel as [|f]; [lia|]. rewrite p_stmt_S. unfold stmt_ref, p_expr. comb.
+  rewrite (p_tag_no toks (is_k Semic) k r _ _ _ H eq_refl eq_refl).
+  destruct (p_tag_at toks (is_k KIf) k r _ _ _ H eq_refl) as (t1 & _ & E1). rewrite E1; ifs; norm.
+  apply at_cm_cons in H.
+  destruct (p_tag_at toks (is_k LParen) _ r _ _ _ H eq_refl) as (t2 & _ & E2). rewrite E2; ifs; norm.
+  apply at_cm_cons in H.
+  rewrite (fcmp_ok toks e _ _ _ f (le_n _) ltac:(lia) H (fol_here fol_cmp c3 RParen _ eq_refl eq_refl) Hgap). norm.
+  apply at_app in H.
+  destruct (p_tag_at toks (is_k RParen) _ r _ _ _ H eq_refl) as (t3 & _ & E3). rewrite E3; ifs; norm.
+  apply at_cm_cons in H.
+  rewrite (proj1 (stmt_all toks) t _ _ rest f (le_n _)) by side. norm.
+  apply at_app in H. destruct (Hfol eq_refl) as (c & kd & rest' & -> & Hs & Hk).
+  rewrite (p_tag_no toks (is_k KElse) _ r _ _ _ H Hs) by (unfold noelse in Hk; now destruct (is_k KElse kd)).
+  norm. rewrite !Nat.sub_diag. cbn [fxg_stmt]. unfold mkinfo. rewrite Hl. fteq.
+Qed.
+
+Lemma fstmt_ifec c1 c2 e c3 t c4 s' : FStmtOK (FIfEC c1 c2 e c3 t c4 s').
+Proof.
+  intros k r rest fuel Hr Hf Hok H Hfol Hgap. cbn [ffl_stmt] in H. flat_in H. cbn [orig_stmt else_ok open_if] in Hok, Hfol.
+  cbn [after_stmt gk_stmt] in Hgap. apply gapc_E_cmp in Hgap.
+  apply andb_prop in Hok. destruct Hok as [Hok Hok2]. apply andb_prop in Hok. destruct Hok as [Hno Hok1].
+  apply negb_true_iff in Hno.
+  assert (Hl : len (ffl_stmt (FIfEC c1 c2 e c3 t c4 s')) =
+               len c1 + 1 + len c2 + 1 + len (ffl_cmp e) + len c3 + 1 + len (fl_stmt t) + len c4 + 1 + len (fl_stmt s')) by (flens'; lia).
+  assert (Hft : open_if t = true -> fol noelse (cm c4 ++ KElse :: fl_stmt s' ++ rest)) by (intros Ho; congruence).
+  destruct fuel as [|f]; [lia|]. rewrite p_stmt_S. unfold stmt_ref, p_expr. comb.
+  rewrite (p_tag_no toks (is_k Semic) k r _ _ _ H eq_refl eq_refl).
+  destruct (p_tag_at toks (is_k KIf) k r _ _ _ H eq_refl) as (t1 & _ & E1). rewrite E1; ifs; norm.
+  apply at_cm_cons in H.
+  destruct (p_tag_at toks (is_k LParen) _ r _ _ _ H eq_refl) as (t2 & _ & E2). rewrite E2; ifs; norm.
+  apply at_cm_cons in H.
+  rewrite (fcmp_ok toks e _ _ _ f (le_n _) ltac:(lia) H (fol_here fol_cmp c3 RParen _ eq_refl eq_refl) Hgap). norm.
+  apply at_app in H.
+  destruct (p_tag_at toks (is_k RParen) _ r _ _ _ H eq_refl) as (t3 & _ & E3). rewrite E3; ifs; norm.
+  apply at_cm_cons in H.
+  rewrite (proj1 (stmt_all toks) t _ _ (cm c4 ++ KElse :: fl_stmt s' ++ rest) f (le_n _)) by side. norm.
+  apply at_app in H.
+  destruct (p_tag_at toks (is_k KElse) _ r _ _ _ H eq_refl) as (t4 & _ & E4). rewrite E4; ifs; norm.
+  apply at_cm_cons in H.
+  rewrite (proj1 (stmt_all toks) s' _ _ rest f (le_n _)) by side. norm.
+  rewrite !Nat.sub_diag. cbn [fxg_stmt]. unfold mkinfo. rewrite Hl. fteq.
+Qed.
+
+Lemma fstmt_whlc c1 c2 e c3 b : FStmtOK (FWhlC c1 c2 e c3 b).
+Proof.
+  intros k r rest fuel Hr Hf Hok H Hfol Hgap. cbn [ffl_stmt] in H. flat_in H. cbn [orig_stmt else_ok open_if] in Hok, Hfol.
+  cbn [after_stmt gk_stmt] in Hgap. apply gapc_E_cmp in Hgap.
+  assert (Hl : len (ffl_stmt (FWhlC c1 c2 e c3 b)) = len c1 + 1 + len c2 + 1 + len (ffl_cmp e) + len c3 + 1 + len (fl_stmt b)) by (flens'; lia).
+  destruct fuel as [|f]; [lia|]. rewrite p_stmt_S. unfold stmt_ref, p_expr. comb.
+  rewrite (p_tag_no toks (is_k Semic) k r _ _ _ H eq_refl eq_refl).
+  rewrite (p_tag_no toks (is_k KIf) k r _ _ _ H eq_refl eq_refl).
+  destruct (p_tag_at toks (is_k KWhile) k r _ _ _ H eq_refl) as (t1 & _ & E1). rewrite E1; ifs; norm.
+  apply at_cm_cons in H.
+  destruct (p_tag_at toks (is_k LParen) _ r _ _ _ H eq_refl) as (t2 & _ & E2). rewrite E2; ifs; norm.
+  apply at_cm_cons in H.
+  rewrite (fcmp_ok toks e _ _ _ f (le_n _) ltac:(lia) H (fol_here fol_cmp c3 RParen _ eq_refl eq_refl) Hgap). norm.
+  apply at_app in H.
+  destruct (p_tag_at toks (is_k RParen) _ r _ _ _ H eq_refl) as (t3 & _ & E3). rewrite E3; ifs; norm.
+  apply at_cm_cons in H.
+  rewrite (proj1 (stmt_all toks) b _ _ rest f (le_n _)) by side. norm.
+  rewrite !Nat.sub_diag. cbn [fxg_stmt]. unfold mkinfo. rewrite Hl. fteq.
+Qed.
+
+(* a fault inside an argument of a call *)
+Lemma fargs_head a : headed (ffl_args a).
+Proof. destruct a; cbn [ffl_args]; apply headed_app; [apply fhead_cmp | apply head_cmp]. Qed.
+
+Lemma fstmt_cala c1 g c2 a c3 c4 : FStmtOK (FCalA c1 g c2 a c3 c4).
+Proof.
+  intros k r rest fuel Hr Hf Hok H Hfol Hgap. cbn [after_stmt gk_stmt] in Hgap. apply gapc_E_args in Hgap.
+  assert (Hl : len (ffl_stmt (FCalA c1 g c2 a c3 c4)) = len c1 + 1 + len c2 + 1 + len (ffl_args a) + len c3 + 1 + len c4 + 1) by (flens'; lia).
+  destruct fuel as [|f]; [lia|]. rewrite p_stmt_S. comb.
+  cbn [ffl_stmt] in H. flat_in H.
+  rewrite (p_tag_no toks (is_k Semic) k r _ _ _ H eq_refl eq_refl).
+  rewrite (p_tag_no toks (is_k KIf) k r _ _ _ H eq_refl eq_refl).
+  rewrite (p_tag_no toks (is_k KWhile) k r _ _ _ H eq_refl eq_refl).
+  rewrite (p_tag_no toks (is_k LCurly) k r _ _ _ H eq_refl eq_refl).
+  unfold p_call. comb.
+  rewrite (p_ident_at toks k r _ _ _ H Hr). norm. apply at_cm_cons in H.
+  destruct (p_tag_at toks (is_k LParen) _ r _ _ _ H eq_refl) as (t1 & _ & E1). rewrite E1; ifs; norm.
+  apply at_cm_cons in H.
+  destruct (fargs_head a) as (c & kd & tl & E & Hs & Hk). pose proof H as H0. rewrite E in H0. flat_in H0.
+  rewrite (la_tag_at toks _ _ _ _ _ H0 Hs), (expr_start_not_close _ Hk). norm.
+  rewrite (fargs_ok toks a (k + len c1 + 1 + len c2 + 1) r (cm c3 ++ RParen :: cm c4 ++ Semic :: rest) f ltac:(lia) ltac:(lia) H
+             (fol_here (is_k RParen) c3 RParen _ eq_refl eq_refl) Hgap).
+  norm. apply at_app in H.
+  destruct (p_tag_at toks (is_k RParen) _ r _ _ _ H eq_refl) as (t2 & _ & E2). rewrite E2; ifs; norm.
+  apply at_cm_cons in H.
+  destruct (p_tag_at toks (is_k Semic) _ r _ _ _ H eq_refl) as (t3 & _ & E3). rewrite E3; ifs; norm.
+  cbn [fxg_stmt]. unfold mkinfo. rewrite Hl. fteq.
+Qed.
+
 Lemma fstmt_ift c1 c2 e c3 t : FStmtOK t -> FStmtOK (FIfT c1 c2 e c3 t).
 Proof.
   intros IHt k r rest fuel Hr Hf Hok H Hfol Hgap. cbn [ffl_stmt] in H. flat_in H. cbn [orig_stmt else_ok] in Hok.
@@ -590,8 +718,6 @@ Proof.
   unfold mkinfo. rewrite Hl. fteq.
 Qed.
 
-Lemma steps_app {A} (p : parser A) s l1 s1 l2 s2 : steps p s l1 s1 -> steps p s1 l2 s2 -> steps p s (l1 ++ l2) s2.
-Proof. induction 1 as [s|s sa s1 a l Hp Hne Hs IH]; intros H2; cbn [app]; [exact H2|]. econstructor; eauto. Qed.
 
 Lemma fstmts_here s b : FStmtOK s -> FStmtsOK (FHere s b).
 Proof.
@@ -631,6 +757,12 @@ Proof.
   - apply fstmt_ifp.
   - apply fstmt_ifpe.
   - apply fstmt_whlp.
+  - apply fstmt_asgl.
+  - apply fstmt_asgr.
+  - apply fstmt_ifc.
+  - apply fstmt_ifec.
+  - apply fstmt_whlc.
+  - apply fstmt_cala.
   - intros; now apply fstmt_ift.
   - intros; now apply fstmt_ife1.
   - intros; now apply fstmt_ife2.
